@@ -74,7 +74,19 @@ Padded(a, b, c) == LET n == Max2(Len(a), Len(b)) IN <<PadLeft(a, n, c), PadLeft(
 \* first occurrence (0-based offset) of sub in s, -1 if none; the empty pattern is found at 0
 StrStrPos(s, sub) == LET O == Occurrences(s, sub) IN IF O = {} THEN -1 ELSE (CHOOSE i \in O : \A j \in O : i <= j) - 1
 
-\* AtoI / AtoU: leading white space, optional sign (AtoI only), maximal run of decimal digits
+\* Character classes of the "C" locale, over ALL byte values 0..255.  The C-library-like primitives and the operations
+\* built on them classify single bytes (white space and digits in AtoI / AtoU, upper case in ToLower / lowerCase / the
+\* comparisons without case, control bytes and the seven with a letter escape in printable).  The classes are listed
+\* here extensionally, byte by byte, as <ctype.h> defines them; the operators (IsSpaceCh, IsDigitCh, LowerCh, Esc) use
+\* range tests, and MC_SimpleStr (StrLaws) confronts the two for every byte.  Bytes >= 0x80 belong to no class.
+SpaceBytes == {9, 10, 11, 12, 13, 32}          \* \t \n \v \f \r and the blank: isspace()
+DigitBytes == {48, 49, 50, 51, 52, 53, 54, 55, 56, 57}
+UpperBytes == {65, 66, 67, 68, 69, 70, 71, 72, 73, 74, 75, 76, 77, 78, 79, 80, 81, 82, 83, 84, 85, 86, 87, 88, 89, 90}
+ControlBytes == 0..31 \cup {127}               \* iscntrl()
+LetterEscBytes == {7, 8, 9, 10, 11, 12, 13}    \* \a \b \t \n \v \f \r
+
+\* AtoI / AtoU: leading white space (every byte of SpaceBytes, in any number and order), optional sign (AtoI only),
+\* maximal run of decimal digits; everything after it - any byte - is ignored
 IsSpaceCh(c) == c = 32 \/ (c >= 9 /\ c <= 13)
 IsDigitCh(c) == c >= 48 /\ c <= 57
 SkipSpaces(s) == LET P == { i \in 1..Len(s) : ~IsSpaceCh(s[i]) } IN
